@@ -233,7 +233,7 @@ fn exec_hash(sc: &Scenario) -> Outcome {
                     Digest::new().u64(shape).u64(*sw as u64).u64(*h).finish(),
                 );
             }
-            tree_probes(&sa, &mut stats);
+            tree_probes(&a, &mut stats);
             match &first {
                 None => first = Some((*h, sa, va)),
                 Some((h0, s0, v0)) => {
